@@ -1,4 +1,5 @@
 """C09 — tables keep their grid: rows, cells, spans and header rows."""
+import common
 import itertools
 import random
 
@@ -167,7 +168,7 @@ def run(out, tier, seed, model_ok):
                 for sp in (("continue", "bare") if R > 1 else ("continue",)):
                     cs.append(case_of(ow, rng, "c09-t%d%d-%d-%s" % (R, C, i, sp), sp))
     nex = len(cs)
-    for i in range(1500 if tier == "quick" else 20000):
+    for i in range(common.deepen(1500 if tier == "quick" else 20000)):
         R, C = rng.randint(1, 6), rng.randint(1, 6)
         nested = random_tiling(rng, rng.randint(1, 3), rng.randint(1, 3)) if rng.random() < 0.3 else None
         cs.append(case_of(random_tiling(rng, R, C), rng, "c09-r%d-%d" % (seed, i), "mixed", nested))
